@@ -236,7 +236,7 @@ pub fn gen_prog(r: &mut Rng, depth: u32) -> (String, Vars) {
     for i in 0..nctl {
         let is_b = r.chance(1, 6);
         let vol = r.chance(1, 3);
-        let n = format!("{}{}", if r.chance(1, 40) { "truex" } else { *r.pick(&["c", "state", "thresh", "k", "volatilec", "Control."]) }, i);
+        let n = format!("{}{}", if r.chance(1, 40) { "truex" } else { *r.pick(&["c", "state", "thresh", "k", "volatilec", "Control.", "Reported", "Report_"]) }, i);
         ctl_decls.push(format!("({}{} {})", if vol { "volatile " } else { "" }, n, init_val(r, is_b)));
         v.controls.push((n, is_b, vol));
     }
